@@ -1035,7 +1035,11 @@ def mpf_zeta(s, prec, rnd=round_fast, alt=0):
     pole_dist = -2*(aexp+abc)
     if pole_dist > wp:
         if alt:
-            return mpf_ln2(prec, rnd)
+            # eta(s) = ln2 + (euler*ln2 - ln2^2/2)*(s-1) + O((s-1)^2)
+            q = mpf_ln2(wp)
+            y = mpf_mul(q, mpf_euler(wp), wp)
+            g = mpf_sub(y, mpf_shift(mpf_mul(q, q, wp), -1), wp)
+            return mpf_sub(q, mpf_mul(r, g, wp), prec, rnd)
         else:
             q = mpf_neg(mpf_div(fone, r, wp))
             return mpf_add(q, mpf_euler(wp), prec, rnd)
